@@ -25,7 +25,36 @@ type subFacts struct {
 	methodFor []string // types for which ".*" is appended
 }
 
+// subscribeFn resolves the subscribing function by role: the Service method
+// that contains a loop and, itself or through private helpers, subscribes on
+// the connection - the innermost such function (its callers qualify too).
 func subscribeFn(p *core.Prog) *ssa.Function {
+	var cands []*ssa.Function
+	for _, fn := range methodsOf(p, "", "Service") {
+		if len(rangeLoopHead(fn)) > 0 && hasSubscribeInvoke(p, fn) {
+			cands = append(cands, fn)
+		}
+	}
+	var inner []*ssa.Function
+	for _, fn := range cands {
+		lower := false
+		for _, h := range p.Helpers(fn) {
+			if h == fn {
+				continue
+			}
+			for _, o := range cands {
+				if o == h {
+					lower = true
+				}
+			}
+		}
+		if !lower {
+			inner = append(inner, fn)
+		}
+	}
+	if len(inner) == 1 {
+		return inner[0]
+	}
 	for _, fn := range methodsOf(p, "", "Service") {
 		if fn.Name() == "subscribe" {
 			return fn
@@ -40,8 +69,26 @@ func extractSubFacts(p *core.Prog) (*subFacts, string) {
 		return nil, "subscribe not found"
 	}
 	sf := &subFacts{fn: fn}
-	// array literal of string constants that is ranged over
-	for _, b := range fn.Blocks {
+	var blocks []*ssa.BasicBlock
+	for _, h := range p.Helpers(fn) {
+		blocks = append(blocks, h.Blocks...)
+	}
+	// array literal of string constants that is ranged over, in the function that builds
+	// "<type>." + <owned pattern>
+	buildsSubject := map[*ssa.Function]bool{}
+	for _, b := range blocks {
+		for _, in := range b.Instrs {
+			if bo, ok := in.(*ssa.BinOp); ok && bo.Op == token.ADD {
+				if sv, ok := core.ConstString(bo.Y); ok && sv == "." {
+					buildsSubject[b.Parent()] = true
+				}
+			}
+		}
+	}
+	for _, b := range blocks {
+		if !buildsSubject[b.Parent()] {
+			continue
+		}
 		for _, in := range b.Instrs {
 			st, ok := in.(*ssa.Store)
 			if !ok {
@@ -63,7 +110,7 @@ func extractSubFacts(p *core.Prog) (*subFacts, string) {
 	sort.Strings(sf.resTypes)
 	// "access." prefix and ".*" append
 	excluded := map[string]bool{}
-	for _, b := range fn.Blocks {
+	for _, b := range blocks {
 		for _, in := range b.Instrs {
 			bo, ok := in.(*ssa.BinOp)
 			if !ok {
@@ -107,6 +154,7 @@ func c05(r *core.Run) {
 	r.Rule("M1", "field table: every field of the decoded payload struct is copied exactly once into one request field, each such field is returned by exactly one exported accessor, the map is injective; resource name/params/group/handler/listeners come from the routed Match and the subject; payload JSON keys agree with the client package's Request", 15)
 	r.Rule("M2", "payload decoding: the payload struct is filled by encoding/json.Unmarshal - which validates the whole input, unlike a streaming Decoder that stops after the first value - applied to the message's Data bytes, and its error edge replies with an error before dispatch ('payload not JSON' -> system.internalError)", 2)
 	r.Rule("M3", "path parameters as sent (shared with C06.R4): the match record's node, mount index and params are written together at each accept site and rebased with that same mount index, and the Match handed to request processing takes its params from that record; a mount index that survives backtracking shifts every path parameter", 6)
+	r.Rule("M4", "routing input is private to a lookup (shared with C06.R6): no function reachable from Mux.GetHandler writes Mux / node / handler state or appends into a slice held there; lookups run concurrently (listener, With, Resource), so a shared scratch buffer would route a request with another name's tokens and hand the handler foreign path parameters", 1)
 	r.Rule("D1", "exhaustive dispatch: the request-type constants the dispatcher switches on = the request types subscribe() subscribes to", 1)
 	r.Rule("D2", "method lookup: call and auth alike index the method map by the request's method, fall back to \"*\" on the nil edge, reply methodNotFound when still nil and call exactly that value; call.new prefers the New handler when set", 4)
 	r.Rule("D3", "method split agreement: the request types for which the message handler strips a trailing method token = the types for which subscribe appends a method wildcard", 1)
@@ -117,6 +165,7 @@ func c05(r *core.Run) {
 	if ro := resolveMuxRolesFor(r, "M3"); ro != nil {
 		c06MatchAssembly(r, "M3", root, ro)
 	}
+	c06PureLookup(r, "M4")
 	models := c04Models(r, "M1")
 	mReq := models["Request"]
 	if mReq == nil {
